@@ -487,7 +487,8 @@ impl Exec {
                     // the append of commit_apply happens after commit_ready cleared the unstable entries
                     write!(eff, " {}", self.cb_effect(pre, &[], false, true)).unwrap();
                 }
-                if let Some(c) = light.commit_index() {
+                // `nosave`: an application that does not store the commit index of a LightReady
+                if let (Some(c), false) = (light.commit_index(), real.get(1) == Some(&"nosave")) {
                     self.store.as_ref().unwrap().wl().mut_hard_state().commit = c;
                 }
                 Some((eff, show_light(&light)))
@@ -525,6 +526,8 @@ impl Exec {
 // generator
 
 struct Gen<'a> {
+    /// the application of this sequence does not store the commit index of a LightReady
+    lazy_commit: bool,
     ex: Exec,
     rng: Rng,
     out: &'a mut dyn Write,
@@ -721,9 +724,9 @@ impl<'a> Gen<'a> {
         let obs = if c < 50 {
             self.run("advance_append_async".into())
         } else if c < 80 {
-            self.run("advance_append".into())
+            self.run(if self.lazy_commit { "advance_append nosave".into() } else { "advance_append".into() })
         } else {
-            self.run("advance".into())
+            self.run(if self.lazy_commit { "advance nosave".into() } else { "advance".into() })
         };
         if self.alive {
             self.note_handed(&obs);
@@ -762,7 +765,13 @@ impl<'a> Gen<'a> {
             self.run(format!("advance_apply_to {}", k));
         } else if c < 57 {
             let st_first = self.ex.store.as_ref().unwrap().first_index().unwrap_or(1);
-            let hi = applied.min(persisted);
+            let mut hi = applied.min(persisted);
+            if self.lazy_commit {
+                // an application that does not store every commit index must still not compact beyond the stored one
+                // (RaftLog::new + load_state reject a storage whose first index lies beyond hard_state.commit + 1)
+                let hsc = self.ex.store.as_ref().unwrap().initial_state().map(|s| s.hard_state.commit).unwrap_or(0);
+                hi = hi.min(hsc);
+            }
             if hi > st_first {
                 let k = self.rg(st_first, hi);
                 self.run(format!("compact {}", k));
@@ -773,7 +782,14 @@ impl<'a> Gen<'a> {
             let hs_commit = st.initial_state().map(|s| s.hard_state.commit).unwrap_or(0);
             let snap_idx = st.first_index().unwrap_or(1) - 1;
             let hi = self.handed_last.min(hs_commit).max(snap_idx);
-            let a = if self.rng.chance(50) { hi } else { self.rg(applied.min(hi).max(snap_idx), hi) };
+            let mut a = if self.rng.chance(50) { hi } else { self.rg(applied.min(hi).max(snap_idx), hi) };
+            // an application that does not store the commit index of a LightReady ("not required to save it to stable
+            // storage", raw_node.rs): it resumes from its own applied index, which then lies beyond the stored commit
+            // index (the restart window `applied > committed` that Raft::new provides for)
+            let st_last = st.last_index().unwrap_or(0);
+            if self.handed_last > hs_commit && self.handed_last <= st_last && self.rng.chance(60) {
+                a = self.handed_last;
+            }
             self.run(format!("restart {}", a));
             self.handed_last = a;
         } else {
@@ -825,7 +841,7 @@ pub fn random(seed: u64, cases: u64, len: u64, out: &mut dyn Write) -> u64 {
     for case in 0..cases {
         let mut rng = Rng::new(seed.wrapping_mul(0x9E37_79B9).wrapping_add(case));
         let (newcmd, applied) = initial(&mut rng);
-        let mut g = Gen { ex: Exec::default(), rng, out, lines: 0, handed_last: applied, violate: case % 10 == 9, alive: true };
+        let mut g = Gen { ex: Exec::default(), rng, out, lines: 0, handed_last: applied, violate: case % 10 == 9, alive: true, lazy_commit: case % 4 == 2 };
         g.run(newcmd);
         let mut k = 0;
         while g.alive && k < len {
